@@ -74,6 +74,19 @@ Theorem C10_final_state_refines : forall a0 s0 I progs,
   LInv (fst (lrun s0 (with_choices ops outs))).
 Proof. exact conc_final_state_refines. Qed.
 
+(* (d), results: the run is linearisable with respect to the sequential model --
+   the results the replay of the linearisation history returns for thread k's
+   operations (trun: arun with thread tags, lemma trun_arun) are exactly the
+   allocator results thread k received (handles, deletion results, is_alive
+   results), followed by the handle of a creation that has linearised but
+   not returned yet *)
+Theorem C10_results_linearisable : forall a0 s0 I progs,
+  R a0 s0 -> LInv s0 -> forallb (hinit_okb a0) I = true -> forall s k t,
+  nth_error (threads (run (c_new a0 I progs) s)) k = Some t ->
+  thread_results a0 k (lin (run (c_new a0 I progs) s)) = flat_map lin_out (outs t) ++ pending_of a0 (tpc t) /\
+  (finished t = true -> thread_results a0 k (lin (run (c_new a0 I progs) s)) = flat_map lin_out (outs t)).
+Proof. exact conc_results_linearisable. Qed.
+
 (* (e) the final queue is an interleaving of the threads' pushes: every push
    exactly once, each thread's pushes in program order *)
 Theorem C10_queue_interleaving : forall a0 s0 I progs,
@@ -130,6 +143,7 @@ Print Assumptions C10_delete_of_live_ok.
 Print Assumptions C10_delete_recorded.
 Print Assumptions C10_final_state_sequential.
 Print Assumptions C10_final_state_refines.
+Print Assumptions C10_results_linearisable.
 Print Assumptions C10_queue_interleaving.
 Print Assumptions C10_never_stuck.
 Print Assumptions C10_programs_in_order.
